@@ -141,6 +141,7 @@ def instances(tier):
         out.append(inst_plan((2, 2), (3, 2), 2, 3))
         out.append(inst_plan((3, 1), (1, 3), 2, 3))
         out.append(inst_plan((2, 1), (1, 2), 100, 3, itemsize=3, lim_max=24))
+        out.append(inst_plan((5,), (3,), 2, 3))  # a 1-d merge deep enough for the degree pass to insert steps
         for mo, mn in ((1, 2), (2, 1), (2, 2), (2, 3), (3, 2), (3, 3)):
             out.append(inst_crosswalk(mo, mn))
             out.append(inst_crosswalk(mo, mn, lo=0))
@@ -155,13 +156,14 @@ def instances(tier):
         for mo, mn in (((2, 1), (1, 2)), ((2, 2), (1, 2)), ((1, 2), (2, 1)), ((2, 2), (2, 1)), ((3, 1), (1, 3)), ((1, 3), (3, 1)),
                        ((2, 2), (3, 2)), ((3, 2), (2, 3)), ((2, 3), (3, 2))):
             for deg in (2, 100):
-                out.append(inst_plan(mo, mn, deg, 4, lim_max=32, thr_max=8))
+                # six blocks on two axes: sizes <= 3 (with 4 the instance does not finish in 900 s)
+                out.append(inst_plan(mo, mn, deg, 3 if sum(mo) + sum(mn) >= 10 else 4, lim_max=32, thr_max=8))
         for mo in range(1, 6):
             for mn in range(1, 6):
                 out.append(inst_crosswalk(mo, mn))
                 if mo <= 4 and mn <= 4:
                     out.append(inst_crosswalk(mo, mn, lo=0))
         out.append(inst_plan((2, 1), (1, 2), 100, 4, itemsize=3, lim_max=48))
-        out.append(inst_plan((2, 1), (1, 2), 100, 6, itemsize=8, lim_max=64))
+        out.append(inst_plan((2, 1), (1, 2), 100, 5, itemsize=8, lim_max=64))
         out.append(inst_plan((2, 2), (1, 2), 2, 5, itemsize=8, lim_max=64))
     return out
